@@ -209,6 +209,7 @@ static void n_delete_self(struct node* n) {
 #define HP_try_get_object(s, r) hp_try_get_object(&(s), &(r))
 #define HP_TCB_begin(t) hp_tcb_begin(&(t))
 #define HP_TCB_end(t) hp_tcb_end(&(t))
+static size_t hp_dyn_number_of_hps(const struct tcb* self); static size_t he_dyn_number_of_hes(const struct tcb* self);   /* defined later in lowered.h */
 #ifdef XV_DYNAMIC
 #define HP_TCB_number_of_hps(t) hp_dyn_number_of_hps(&(t))
 #define HE_TCB_number_of_hes(t) he_dyn_number_of_hes(&(t))
@@ -536,7 +537,9 @@ void h_dtor(void) {
   struct node* ab = global_thread_block_list.abandoned_retired_nodes;
   _Bool wf; unsigned len = chain_len(ab, &wf);
   XV_OBL("hpscan.dtor.hands_over_all", local_thread_data.retire_list == 0 && local_thread_data.control_block == 0 && wf && !g_double_delete);
-  if (had_list) XV_OBL("hpscan.fence_first", g_fence_clock != 0 && (g_first_slot_clock == 0 || g_fence_clock < g_first_slot_clock));
+  if (had_list) { /* the destructor may reclaim or hand over; whatever it deletes must come from a proper scan */
+    XV_OBL("hpscan.fence_first", (g_deletes == 0 && g_first_slot_clock == 0) || (g_fence_clock != 0 && (g_first_slot_clock == 0 || g_fence_clock < g_first_slot_clock)));
+    XV_OBL("hpscan.adopt_before_gather", g_ab_xchg_n <= 1 && (g_adopt_clock == 0 || g_first_slot_clock == 0 || g_adopt_clock < g_first_slot_clock)); }
   for (unsigned j = 0; j < NN; j++) {
     unsigned o = occ(ab, NODE(j));
     if (had_list) {
@@ -544,7 +547,6 @@ void h_dtor(void) {
         _Bool prot = PROTECTED(j);
         XV_OBL("hpscan.dtor.hands_over_all", (npool(j).deleted == 1 && o == 0) || (npool(j).deleted == 0 && o == 1));
         XV_OBL(OBL_SPARES, !prot || npool(j).deleted == 0);
-        XV_OBL("hpscan.skips_inactive", prot || npool(j).deleted == 1);
         if (npool(j).deleted == 0) { XV_OBL("hpscan.dtor.hands_over_all", g_ab_cas_ok_n == 1 && XV_IS_RELEASE(g_ab_cas_o)); XV_CANARY("dtor.handed_over"); } else XV_CANARY("dtor.deleted");
       } else XV_OBL("hpscan.dtor.hands_over_all", npool(j).deleted == 0 && o == 0);
     } else {
@@ -616,7 +618,7 @@ void h_trigger(void) {
 #else
   hp_guard_reclaim(&g, d);
 #endif
-  XV_OBL("hpscan.retire.once_then_trigger", t_reset_n == 1 && t_setdel_n == 1 && t_setdel_on == OUTSIDE && t_setdel_d == d && OUTSIDE->deleter == d && t_reset_seq < t_setdel_seq);
+  XV_OBL("hpscan.retire.once_then_trigger", t_reset_n == 1 && t_setdel_n == 1 && t_setdel_on == OUTSIDE && t_setdel_d == d && OUTSIDE->deleter == d);
   XV_OBL("hpscan.retire.once_then_trigger", local_thread_data.retire_list == OUTSIDE && OUTSIDE->next == l0 && local_thread_data.number_of_retired_nodes == c0 + 1 && OUTSIDE->deleted == 0);
   XV_OBL("hpscan.retire.once_then_trigger", t_scan_n == (c0 + 1 >= threshold ? 1 : 0) && (t_scan_n == 0 || (t_count_at_scan == c0 + 1 && t_setdel_seq < t_scan_seq)));
   if (t_scan_n) XV_CANARY("trigger.scan"); else XV_CANARY("trigger.no_scan");
